@@ -682,13 +682,43 @@ package rockredis
 //@   invariant 0 <= i && i <= len(args) && num == ghost(misses, db) - old(ghost(misses, db)) && num >= 0 && num <= i && err == nil && (value == nil || (fresh(value) && disjoint(value, keyInfo.OldHeader.UserData)))
 //@   invariant (len(keyInfo.OldHeader.UserData) == 0 || len(keyInfo.OldHeader.UserData) == 8) && storedSize(keyInfo.OldHeader.UserData) >= 0 && storedSize(keyInfo.OldHeader.UserData) < 4611686018427387904
 
+//@ property C08 C09 C10
+// the stored meta of a collection as read for a write at log time ts: a decoded header (never nil), whether it is
+// expired at ts, and the per-type shape of the stored size data (store invariant, assumed)
+//@ spec collMetaOK(dt byte, ud []byte) bool = ((dt == SetType || dt == ZSetType) ==> (len(ud) == 0 || len(ud) >= 8) && setSize(ud) >= 0 && setSize(ud) < 4611686018427387904) && (dt == HashType ==> (len(ud) == 0 || len(ud) == 8) && storedSize(ud) >= 0 && storedSize(ud) < 4611686018427387904) && (dt == ListType ==> (len(ud) == 0 || len(ud) >= 16) && (len(ud) >= 16 ==> lmTail(ud) - lmHead(ud) + 1 >= 1 && lmHead(ud) > listMinSeq && lmTail(ud) < listMaxSeq))
+//@ func (db *RockDB) collHeaderMeta(ts int64, dt byte, key []byte, useLock bool) (*headerMetaValue, bool, error)
+//@   trusted reads and decodes the collection meta through the engine and the expiry policy
+//@   ensures result2 == nil ==> result0 != nil && fresh(result0) && (result0.Ver == 0 || result0.Ver == 1) && (result0.UserData == nil || fresh(result0.UserData)) && collMetaOK(dt, result0.UserData)
+//@   ensures result2 == nil ==> (result1 <==> ghost(collexpired, db) == 1)
+//@   ensures result2 != errTooMuchBatchSize
+//@ interface (github.com/youzan/ZanRedisDB/rockredis.expiration).renewOnExpired func(e expiration, ts int64, dt byte, key []byte, oldh *headerMetaValue)
+//@   ensures oldh != nil ==> oldh.ExpireAt == 0 && oldh.UserData == nil && oldh.ValueVersion == ts && oldh.Ver == old(oldh.Ver)
+//@   modifies oldh.ExpireAt, oldh.UserData, oldh.ValueVersion
+//@ spec verOf(vk []byte) int
+//@ interface (github.com/youzan/ZanRedisDB/rockredis.expiration).encodeToVersionKey func(e expiration, dt byte, h *headerMetaValue, key []byte) []byte
+//@   requires h != nil
+//@   ensures fresh(result) && len(result) < 65536
+//@   defines verOf(result) == h.ValueVersion
+//@ func extractTableFromRedisKey(key []byte) ([]byte, []byte, error)
+//@   trusted split at the first ':' (bytes.IndexByte)
+//@   ensures result2 == nil ==> len(result0) < 65536 && len(result0) <= len(key)
+//@   ensures result2 != errTooMuchBatchSize
+
+// write preparation: an expired or absent collection starts a NEW GENERATION: no meta (size 0), value version = the
+// log timestamp, and the versioned key every element key is built from carries that new version - so nothing of the
+// predecessor can be seen through it
 //@ func (db *RockDB) prepareCollKeyForWrite(ts int64, dt byte, key []byte, field []byte) (collVerKeyInfo, error)
-//@   trusted reads the collection meta through the engine; an expired or absent collection starts a new generation with no meta
-//@   ensures result1 == nil ==> result0.OldHeader != nil && (result0.OldHeader.Ver == 0 || result0.OldHeader.Ver == 1) && smallTK(result0.Table, result0.VerKey)
-//@   ensures result1 == nil && (dt == SetType || dt == ZSetType) ==> (len(result0.OldHeader.UserData) == 0 || len(result0.OldHeader.UserData) >= 8) && setSize(result0.OldHeader.UserData) >= 0 && setSize(result0.OldHeader.UserData) < 4611686018427387904
-//@   ensures result1 == nil && dt == ListType ==> (len(result0.OldHeader.UserData) == 0 || len(result0.OldHeader.UserData) >= 16) && ghost(lphead, db) == lmHead(result0.OldHeader.UserData) && ghost(lptail, db) == lmTail(result0.OldHeader.UserData) && ghost(lpsize, db) == ite(len(result0.OldHeader.UserData) == 0, 0, ghost(lptail, db) - ghost(lphead, db) + 1)
-//@   ensures result1 == nil && dt == ListType && len(result0.OldHeader.UserData) >= 16 ==> ghost(lpsize, db) >= 1 && ghost(lphead, db) > listMinSeq && ghost(lptail, db) < listMaxSeq
+//@   requires db != nil && db.expiration != nil
+//@   ensures result1 == nil ==> result0.OldHeader != nil && (result0.OldHeader.Ver == 0 || result0.OldHeader.Ver == 1) && smallTK(result0.Table, result0.VerKey) && collMetaOK(dt, result0.OldHeader.UserData)
+//@   ensures result1 == nil ==> (result0.Expired <==> ghost(collexpired, db) == 1) && verOf(result0.VerKey) == result0.OldHeader.ValueVersion
+//@   ensures result1 == nil && result0.Expired ==> result0.OldHeader.UserData == nil && result0.OldHeader.ValueVersion == ts && result0.OldHeader.ExpireAt == 0
+//@   ensures result1 == nil ==> fresh(result0.OldHeader) && (result0.OldHeader.UserData == nil || fresh(result0.OldHeader.UserData))
 //@   ensures result1 != errTooMuchBatchSize
+//@   ghostset ghost(lphead, db) := ite(dt == ListType && result1 == nil, lmHead(result0.OldHeader.UserData), old(ghost(lphead, db)))
+//@   ghostset ghost(lptail, db) := ite(dt == ListType && result1 == nil, lmTail(result0.OldHeader.UserData), old(ghost(lptail, db)))
+//@   ghostset ghost(lpsize, db) := ite(dt == ListType && result1 == nil, ite(len(result0.OldHeader.UserData) == 0, 0, lmTail(result0.OldHeader.UserData) - lmHead(result0.OldHeader.UserData) + 1), old(ghost(lpsize, db)))
+//@   modifies alloftype(headerMetaValue), ghost(lphead, db), ghost(lptail, db), ghost(lpsize, db)
+//@ property C08 C09
 //@ func (db *RockDB) GetCollVersionKey(ts int64, dt byte, key []byte, useLock bool) (collVerKeyInfo, error)
 //@   trusted reads the collection meta from the store
 //@   ensures result1 == nil ==> result0.OldHeader != nil && (result0.OldHeader.Ver == 0 || result0.OldHeader.Ver == 1) && smallTK(result0.Table, result0.VerKey)
@@ -714,7 +744,7 @@ package rockredis
 // SADD: the reply and the size delta are the number of members the store did not have, each buffered once;
 // the batch is cleared on every path
 //@ func (db *RockDB) SAdd(ts int64, key []byte, args ...[]byte) (int64, error)
-//@   requires db != nil && db.wb != nil && ghost(wbputs, db.wb) == 0 && ghost(wbdels, db.wb) == 0
+//@   requires db != nil && db.expiration != nil && db.wb != nil && ghost(wbputs, db.wb) == 0 && ghost(wbdels, db.wb) == 0
 // a member counted as new / removed must not already be buffered by this same command (reads see the store, not the batch)
 //@   callassert Put bst(arg0, ghost(wbver, arg0), kid(arg1)) == bst(arg0, old(ghost(wbver, db.wb)), kid(arg1))
 //@   ensures result1 == nil ==> result0 == ghost(misses, db) - old(ghost(misses, db)) && ghost(sizedelta, db) == result0
@@ -830,7 +860,7 @@ package rockredis
 
 // ZADD: reply and size growth are the number of members the store did not have; ZREM: the number it had
 //@ func (db *RockDB) ZAdd(ts int64, key []byte, args ...common.ScorePair) (int64, error)
-//@   requires db != nil && db.wb != nil && ghost(wbputs, db.wb) == 0 && ghost(wbdels, db.wb) == 0
+//@   requires db != nil && db.expiration != nil && db.wb != nil && ghost(wbputs, db.wb) == 0 && ghost(wbdels, db.wb) == 0
 // a member counted as new / removed must not already be buffered by this same command (reads see the store, not the batch)
 //@   callassert zSetItem bst(arg5, ghost(wbver, arg5), zmKid(arg1, arg2, arg4)) == bst(arg5, old(ghost(wbver, db.wb)), zmKid(arg1, arg2, arg4))
 //@   ensures result1 == nil && len(args) > 0 ==> result0 == ghost(misses, db) - old(ghost(misses, db)) && ghost(sizedelta, db) == result0
@@ -869,7 +899,7 @@ package rockredis
 // LPUSH / RPUSH: the reply is old size + pushed; the new meta extends exactly pushed positions at the chosen end;
 // every element is buffered once; nothing is written when a position is already occupied
 //@ func (db *RockDB) lpush(ts int64, key []byte, whereSeq int64, args ...[]byte) (int64, error)
-//@   requires db != nil && db.wb != nil && ghost(wbputs, db.wb) == 0 && ghost(wbdels, db.wb) == 0 && (whereSeq == listHeadSeq || whereSeq == listTailSeq)
+//@   requires db != nil && db.expiration != nil && db.wb != nil && ghost(wbputs, db.wb) == 0 && ghost(wbdels, db.wb) == 0 && (whereSeq == listHeadSeq || whereSeq == listTailSeq)
 //@   ensures result1 == nil && len(args) > 0 ==> result0 == ghost(lpsize, db) + len(args)
 //@   ensures result1 == nil && len(args) > 0 ==> ghost(lmsets, db) == old(ghost(lmsets, db)) + 1 && ghost(lmtail, db) - ghost(lmhead, db) + 1 == ghost(lpsize, db) + len(args)
 //@   ensures result1 == nil && len(args) > 0 && whereSeq == listHeadSeq ==> ghost(lmtail, db) == ghost(lptail, db) && ghost(lmhead, db) == ghost(lphead, db) - len(args) + ite(ghost(lpsize, db) == 0, 1, 0)
@@ -877,7 +907,7 @@ package rockredis
 //@   ensures result1 == nil && len(args) > 0 ==> ghost(commits, db.rockEng) == old(ghost(commits, db.rockEng)) + 1 && ghost(cputs, db.rockEng) == len(args) + 1 && ghost(cdels, db.rockEng) == 0
 //@   ensures len(args) == 0 && result1 == nil ==> result0 == ghost(lpsize, db) && ghost(commits, db.rockEng) == old(ghost(commits, db.rockEng))
 //@   ensures ghost(wbputs, db.wb) == 0 && ghost(wbdels, db.wb) == 0
-//@   modifies ghost(wbputs, _), ghost(wbdels, _), ghost(wbver, _), ghost(commits, _), ghost(cputs, _), ghost(cdels, _), ghost(misses, db), ghost(hits, db), ghost(lmhead, db), ghost(lmtail, db), ghost(lmsets, db), ghost(tblcnt, db), alloftype(headerMetaValue), ghost(cver, _), ghost(readerrs, db)
+//@   modifies ghost(wbputs, _), ghost(wbdels, _), ghost(wbver, _), ghost(commits, _), ghost(cputs, _), ghost(cdels, _), ghost(misses, db), ghost(hits, db), ghost(lmhead, db), ghost(lmtail, db), ghost(lmsets, db), ghost(tblcnt, db), alloftype(headerMetaValue), ghost(cver, _), ghost(readerrs, db), ghost(lphead, db), ghost(lptail, db), ghost(lpsize, db)
 //@   loop 1
 //@   invariant 0 <= i && i <= pushCnt && pushCnt == len(args) && ghost(wbputs, wb) == i && ghost(wbdels, wb) == 0 && ghost(lmsets, db) == old(ghost(lmsets, db)) && ghost(commits, db.rockEng) == old(ghost(commits, db.rockEng))
 
@@ -1077,8 +1107,6 @@ package rockredis
 //@ interface (github.com/youzan/ZanRedisDB/engine.Iterator).Value func(it engine.Iterator) []byte
 //@   ensures fresh(result)
 //@ noeffect time.Unix (time.Time).Format
-//@ func extractTableFromRedisKey(key []byte) ([]byte, []byte, error)
-//@   trusted split at the first ':' (bytes.IndexByte)
 //@ func (c *TTLChecker) check(expiredBuf expiredMetaBuffer, stop chan struct{}) (err error)
 //@   trusted nooverflow scan counters (fewer than 2^63 keys)
 //@   opt abstract=select
@@ -1127,7 +1155,7 @@ package rockredis
 // ZINCRBY: the member key and the score-index key of the NEW score are puts in the committed batch (a stale score
 // key is deleted before, never after, the new one is buffered); a new member grows the size by one
 //@ func (db *RockDB) ZIncrBy(ts int64, key []byte, delta float64, member []byte) (float64, error)
-//@   requires db != nil && db.wb != nil && ghost(wbputs, db.wb) == 0 && ghost(wbdels, db.wb) == 0
+//@   requires db != nil && db.expiration != nil && db.wb != nil && ghost(wbputs, db.wb) == 0 && ghost(wbdels, db.wb) == 0
 //@   ensures result1 == nil ==> ghost(commits, db.rockEng) == old(ghost(commits, db.rockEng)) + 1
 //@   callassert Write bst(arg1, ghost(wbver, arg1), kid(sk)) == 1 && bst(arg1, ghost(wbver, arg1), kid(ek)) == 1
 //@   ensures result1 == nil && ghost(misses, db) != old(ghost(misses, db)) ==> ghost(sizedelta, db) == 1
